@@ -1606,6 +1606,7 @@ class Server:
                 )
 
         # pipelined PASV/EPSV must not start two listeners for one session
+        created = False
         async with connection.passive_lock:
             if not connection.future.passive_server.done():
                 coro = self._start_passive_server(connection, handler)
@@ -1614,6 +1615,7 @@ class Server:
                 except errors.NoAvailablePort:
                     connection.response("421", ["no free ports"])
                     return False
+                created = True
                 code, info_template = "227", "listen socket created {address}"
             else:
                 code, info_template = "227", "listen socket already exists {address}"
@@ -1628,6 +1630,13 @@ class Server:
                     host = self.ipv4_pasv_forced_response_address
                 break
         else:
+            if created:
+                # a refused command leaves nothing behind
+                connection.passive_server.close()
+                del connection.passive_server
+                if self.available_data_ports is not None:
+                    port = connection.passive_server_port
+                    self.available_data_ports.put_nowait((0, port))
             connection.response("503", ["this server started in ipv6 mode"])
             return True
 
